@@ -5,6 +5,7 @@ CONSTANTS
   Res = {"p1", "p2", "a1"}
   TopRes = {"p1", "p2", "a1"}
   Roa <- GenRoa
+  AspaDefs <- NoAspa
   ParentOf <- GenChain
   Ops = {"res", "roa", "refresh"}
   Depth = 30
